@@ -44,6 +44,7 @@ def check(ctx):
               bad_detail="main pass must be collect(flatten(flat_map(into_iter(genome), closure))); extracted " + "; ".join(short(p.ret, 7) for p in ps))
     for p, clo in main:
         extra = [c for c in p.calls() if not callee_is(c, "IntoIterator::into_iter", "Iterator::flat_map", "Iterator::flatten", "Iterator::collect", "Linear::size")]
+        extra = [c for c in extra if not (callee_is(c, "PartialEq::eq") or c[0] != "call")]
         ctx.check(not extra, "R11.3", "Umad/main-pass-no-other-adaptor", "only size/into_iter/flat_map/flatten/collect on the main path", at,
                   bad_detail="unexpected calls on the main path: " + ", ".join(short(c, 3) for c in extra))
         break
@@ -51,8 +52,8 @@ def check(ctx):
         cps = [q for q in closure_paths(ctx, main[0][1]) if q.end == "return"]
         good = bool(cps)
         for q in cps:
-            r = q.ret
-            ok = r[0] == "agg" and r[1] == "array" and len(r[3]) == 2
+            r = rules_c12.umad_pair(q.ret)
+            ok = r is not None and len(r[3]) == 2
             if ok:
                 old, new = r[3]
                 ok = match(old, Call("bool::then_some", ANY, CParam(2), nargs=2)) or match(old, Agg("Option::Some", CParam(2))) or match(old, Agg("Option::None"))
@@ -67,7 +68,12 @@ def check(ctx):
     ctx.check(len(psn) == 1 and match(psn[0].ret, Call("Distribution::sample", lambda a: derives_from_self(a, field="gene_generator"), lambda a: rng_passthrough(a, 2), nargs=2)) and len(psn[0].calls()) == 1,
               "R11.3", "Umad::new_gene=gene_generator.sample(rng)", short(psn[0].ret), g.at())
     emp = [p for p in empty if not is_err_return(p)]
-    for p in emp:
+    if len(emp) == 2 and rules_c12.umad_empty_branch_explicit(ctx, emp):
+        ctx.ok("R11.3", "Umad/empty-parent-yields-at-most-one-new-gene", "if random_bool(..) { Some(new_gene) } else { None }, collected: at most one gene, from new_gene", at)
+        emp_done = True
+    else:
+        emp_done = False
+    for p in ([] if emp_done else emp):
         size0 = [c for c in p.conds if match(c[0], BinOp("Eq", Call("Linear::size", Through(Param(2)), nargs=1), Const(0), commutative=True)) and c[1] != 0]
         some = [c for c in p.conds if c[0][0] == "discr" and self_field(c[0][1], "empty_addition_rate") and c[1] == 1]
         b = {}
